@@ -166,6 +166,27 @@ fn ktag(x: u64, y: u64) -> u64 {{
     tag(KT) * 10 + tag(RC) + x
 }}
 
+record Wide {{ f0: u64, f1: u64, f2: u64, f3: u64, f4: u64, f5: u64, f6: u64, f7: u64, f8: u64, f9: u64, f10: u64, f11: u64, f12: u64, f13: u64, f14: u64, f15: u64, f16: u64, f17: u64, f18: u64, f19: u64, f20: u64, f21: u64, f22: u64, f23: u64, f24: u64, f25: u64, f26: u64, f27: u64, f28: u64, f29: u64, f30: u64, f31: u64, f32: u64, f33: u64, f34: u64, f35: u64, f36: u64, f37: u64, f38: u64, f39: u64 }}
+
+fn mkwide(x: u64, y: u64) -> Wide {{
+    Wide {{ f0: x + 0 * y, f1: x + 1 * y, f2: x + 2 * y, f3: x + 3 * y, f4: x + 4 * y, f5: x + 5 * y, f6: x + 6 * y, f7: x + 7 * y, f8: x + 8 * y, f9: x + 9 * y, f10: x + 10 * y, f11: x + 11 * y, f12: x + 12 * y, f13: x + 13 * y, f14: x + 14 * y, f15: x + 15 * y, f16: x + 16 * y, f17: x + 17 * y, f18: x + 18 * y, f19: x + 19 * y, f20: x + 20 * y, f21: x + 21 * y, f22: x + 22 * y, f23: x + 23 * y, f24: x + 24 * y, f25: x + 25 * y, f26: x + 26 * y, f27: x + 27 * y, f28: x + 28 * y, f29: x + 29 * y, f30: x + 30 * y, f31: x + 31 * y, f32: x + 32 * y, f33: x + 33 * y, f34: x + 34 * y, f35: x + 35 * y, f36: x + 36 * y, f37: x + 37 * y, f38: x + 38 * y, f39: x + 39 * y }}
+}}
+
+fn wsum(w: Wide) -> u64 {{
+    w.f0 + w.f1 + w.f2 + w.f3 + w.f4 + w.f5 + w.f6 + w.f7 + w.f8 + w.f9 + w.f10 + w.f11 + w.f12 + w.f13 + w.f14 + w.f15 + w.f16 + w.f17 + w.f18 + w.f19 + w.f20 + w.f21 + w.f22 + w.f23 + w.f24 + w.f25 + w.f26 + w.f27 + w.f28 + w.f29 + w.f30 + w.f31 + w.f32 + w.f33 + w.f34 + w.f35 + w.f36 + w.f37 + w.f38 + w.f39
+}}
+
+fn wide(x: u64, y: u64) -> u64 {{
+    let w = mkwide(x, y);
+    let l = [x, y, x];
+    let t = 0;
+    for e in l {{
+        t = t + e;
+    }}
+    let v = mkwide(t, 0);
+    wsum(w) + C + v.f7 - t
+}}
+
 fn keep(t: Tk, y: u64) -> Tk {{
     let u = mk(y + C);
     if tag(u) > tag(t) {{ u }} else {{ t }}
@@ -187,6 +208,7 @@ struct Bundle {
     bump: F2,
     bump2: F2,
     ktag: F2,
+    wide: F2,
     keep: FK,
 }
 
@@ -202,6 +224,7 @@ fn get_bundle(pkg: &mut Package<NoCtx>) -> Bundle {
         bump: f2(pkg, "bump"),
         bump2: f2(pkg, "bump2"),
         ktag: f2(pkg, "ktag"),
+        wide: f2(pkg, "wide"),
         keep: pkg
             .get_function::<fn(Val<Tk>, u64) -> Val<Tk>>("keep")
             .unwrap_or_else(|e| panic!("get_function keep: {e:?}")),
@@ -304,6 +327,7 @@ fn do_call(log: &mut ThreadLog, b: &Bundle, m: u64, shape: &str, x: u64, y: u64)
         "bump" => b.bump.call(x, y),
         "bump2" => b.bump2.call(x, y),
         "ktag" => b.ktag.call(x, y),
+        "wide" => b.wide.call(x, y),
         "keep" => {
             let r = b.keep.call(Val(Tk::new(x)), y);
             if r.0.valid() { r.0.tag } else { CORRUPT.fetch_add(1, Ordering::SeqCst); 77777 }
@@ -319,14 +343,15 @@ fn do_call(log: &mut ThreadLog, b: &Bundle, m: u64, shape: &str, x: u64, y: u64)
 }
 
 fn pick_call(rng: &mut Rng) -> (&'static str, u64, u64) {
-    // weights: arith 3, slen 2, lsum 2, bump 4, bump2 1, ktag 2, keep 2
-    let shape = match rng.below(16) {
+    // weights: arith 3, slen 2, lsum 2, bump 4, bump2 1, ktag 2, wide 3, keep 2
+    let shape = match rng.below(19) {
         0..=2 => "arith",
         3..=4 => "slen",
         5..=6 => "lsum",
         7..=10 => "bump",
         11 => "bump2",
         12..=13 => "ktag",
+        14..=16 => "wide",
         _ => "keep",
     };
     let (x, y) = match shape {
